@@ -1,7 +1,7 @@
 //! Static `SystemData` families used by `Static(k)` systems and batch controllers.
 //! The model-side access table is `plan::family_access` (written independently).
 
-use shred::{Read, ReadExpect, SystemData, Write, WriteExpect};
+use shred::{Read, ReadExpect, Resource, SetupHandler, SystemData, World, Write, WriteExpect};
 
 use crate::res::Slot;
 
@@ -91,6 +91,31 @@ fam!(
     |_m| vec![]
 );
 
+thread_local! {
+    /// number of calls of `CountingHandler::setup` on this thread
+    pub static HANDLER_CALLS: std::cell::Cell<u64> = const { std::cell::Cell::new(0) };
+}
+
+/// custom setup handler: counts its calls, then provides the default like `DefaultProvider`
+pub struct CountingHandler;
+
+impl<T: Resource + Default> SetupHandler<T> for CountingHandler {
+    fn setup(world: &mut World) {
+        HANDLER_CALLS.with(|c| c.set(c.get() + 1));
+        world.entry().or_insert_with(T::default);
+    }
+}
+
+fam!(
+    F12,
+    (
+        Read<'a, Slot<5>, CountingHandler>,
+        Write<'a, Slot<6>, CountingHandler>
+    ),
+    |s| vec![s.0.val],
+    |m| vec![&mut m.1.val]
+);
+
 #[macro_export]
 macro_rules! with_fam {
     ($k:expr, $F:ident, $body:expr) => {
@@ -141,6 +166,10 @@ macro_rules! with_fam {
             }
             11 => {
                 type $F = $crate::fam::F11;
+                $body
+            }
+            12 => {
+                type $F = $crate::fam::F12;
                 $body
             }
             _ => panic!("harness: family index out of range"),
